@@ -1,4 +1,5 @@
 """shared helpers of the checks: payloads, cache factories, reference-model plumbing"""
+import os
 import hashlib
 import struct
 import zlib
@@ -197,3 +198,67 @@ def import_seeder_threaded():
     import mapproxy.cache.base as cb
     assert seeder.proc_class is threading.Thread and cb.REMOVE_ON_UNLOCK is True
     return seeder
+
+
+# ---------------------------------------------------------------------------------------------------------------
+# time zones and HTTP dates (written out here: the checks must not use mapproxy.util.times as their own yardstick)
+TIMEZONES = ['UTC', 'UTC', 'EAST-3', 'WEST5', 'IST-5:30', 'PST8']     # POSIX TZ strings with fixed offsets (no DST rules)
+
+
+class local_timezone(object):
+    """run a case as a process whose local time zone is `tz` (the drivers run with TZ=UTC otherwise)"""
+
+    def __init__(self, tz):
+        self.tz = tz or 'UTC'
+
+    def __enter__(self):
+        import time
+        self.old = os.environ.get('TZ')
+        os.environ['TZ'] = self.tz
+        time.tzset()
+        return self
+
+    def __exit__(self, *exc):
+        import time
+        if self.old is None:
+            os.environ.pop('TZ', None)
+        else:
+            os.environ['TZ'] = self.old
+        time.tzset()
+        return False
+
+
+def iso_local(ts):
+    """ISO time string, in the local time zone (what a user writes into seed.yaml)"""
+    import time
+    return time.strftime('%Y-%m-%dT%H:%M:%S', time.localtime(ts))
+
+
+_DAYS = ['Mon', 'Tue', 'Wed', 'Thu', 'Fri', 'Sat', 'Sun']
+_LONGDAYS = ['Monday', 'Tuesday', 'Wednesday', 'Thursday', 'Friday', 'Saturday', 'Sunday']
+_MONTHS = ['Jan', 'Feb', 'Mar', 'Apr', 'May', 'Jun', 'Jul', 'Aug', 'Sep', 'Oct', 'Nov', 'Dec']
+
+
+def http_date(ts, form='imf'):
+    """the three HTTP-date spellings of RFC 7231 (all of them are GMT by definition)"""
+    import time
+    g = time.gmtime(int(ts))
+    if form == 'rfc850':
+        return '%s, %02d-%s-%02d %02d:%02d:%02d GMT' % (_LONGDAYS[g.tm_wday], g.tm_mday, _MONTHS[g.tm_mon - 1], g.tm_year % 100,
+                                                        g.tm_hour, g.tm_min, g.tm_sec)
+    if form == 'asctime':
+        return '%s %s %2d %02d:%02d:%02d %d' % (_DAYS[g.tm_wday], _MONTHS[g.tm_mon - 1], g.tm_mday, g.tm_hour, g.tm_min, g.tm_sec,
+                                                g.tm_year)
+    return '%s, %02d %s %04d %02d:%02d:%02d GMT' % (_DAYS[g.tm_wday], g.tm_mday, _MONTHS[g.tm_mon - 1], g.tm_year,
+                                                    g.tm_hour, g.tm_min, g.tm_sec)
+
+
+def parse_imf_date(s):
+    """epoch seconds of an IMF-fixdate ('Sun, 06 Nov 1994 08:49:37 GMT'), None if it is not one"""
+    import calendar
+    import re
+    m = re.match(r'^(\w{3}), (\d{2}) (\w{3}) (\d{4}) (\d{2}):(\d{2}):(\d{2}) GMT$', s or '')
+    if not m or m.group(3) not in _MONTHS:
+        return None
+    return calendar.timegm((int(m.group(4)), _MONTHS.index(m.group(3)) + 1, int(m.group(2)), int(m.group(5)), int(m.group(6)),
+                            int(m.group(7)), 0, 0, 0))
